@@ -64,10 +64,11 @@ RESOLVER_NOTE = (" The resolver model covers the language fragment: global label
                  "compared with it); banks, nested symbols, #if, functions and asm blocks are covered by their own properties' models.")
 CLAIMED["C01"] = {
   "text": "The language definition is an executable two-phase denotation (static layout, then constants by knowledge-monotone sweeps, then every encoding once, then a strict "
-          "self-consistency check). Proved for all programs of the modelled fragment: the definition's answer and the assembler model's answer are both certified states "
-          "(C01_sound_partial, C01_denote_certified); the full equality statement is kept visible as C01_sound_statement and decided on every run by comparing the implementation "
-          "with the extracted definition (success, bits, symbol values AND rejections) on size-static G-isa x G-prog with operands at every typed range boundary, and with the extracted resolver model.",
-  "design_ref": "6/C01", "note": COMMON_NOTE + RESOLVER_NOTE + " Uniqueness of the certified state of a size-static program (needed for the full C01_sound) is not proved.",
+          "self-consistency check). PROVED for all programs of the modelled fragment (C01_sound): if the assembler model produces output for a program inside the size-static fragment, the definition produces exactly the same bits and "
+          "symbol values (static_size_sound, uniqueness of the certified state, completeness of the definition w.r.t. certified states), and a program the definition rejects is never assembled (C01_rejects); hypotheses: rules parsed by the model's "
+          "rule parser, no production assigns to its own parameter (without it the statement is refuted: F71), acyclic constants, canonical data numbering. Decided on every run: implementation = extracted definition (success, bits, symbols AND "
+          "rejections incl. the tie class) = extracted resolver model on size-static G-isa x G-prog with operands at every typed range boundary.",
+  "design_ref": "6/C01", "note": COMMON_NOTE + RESOLVER_NOTE + " C01_complete (a budget bound under which the assembler does find the definition's answer) is not proved. Known finding F71.",
   "technique": "Coq proof (state invariants, fixed-point lemmas) for the certified-state part + differential correspondence implementation / extracted denotation / extracted model"}
 CLAIMED["C02"] = {
   "text": "Proved for every program, budget and matcher mode of the model: a pass that reports 'resolved' changes nothing (all stability tests compare value and size), every success of "
@@ -140,4 +141,12 @@ CLAIMED["C19"] = {
           "recursion cycles of length 1..4, magnitudes 2^k+-1 (k <= 70); crate vs extracted guard model (outcome class, label value, debug vs release divergence = silent wrap).",
   "design_ref": "6/C19", "note": COMMON_NOTE + " Refuted at model level and reproduced on the binary (known findings): F11, F48, F56, F57, F58, F61, F62; observed only: F12, F59, F60. Frame sizes / allocator / wall time are runtime facts outside any theorem.",
   "technique": "instrumented Gallina guard model + depth state machines; theorems over Z/N; table obligations against Generated.v; differential correspondence crate/extracted model and binary/model; resource-limited process runs"}
-NOT_CLAIMED = {"C17": "check under construction (asm-block/function models and macro-vs-inline streams)"}
+CLAIMED["C17"] = {
+  "text": "Proved for all blocks: when the modelled asm-block inner loop returns a value it is the in-place meaning (every block label equals the address where it lies, every line's encoding is its resolution at its in-place position "
+          "under those labels, the value is their concatenation); every other outcome is Unknown-while-guessing or an error, never a stale value in strict mode; substitution replaces exactly the {name} occurrences (for ordered non-overlapping lists); "
+          "a user-function call = its body under exactly the parameter bindings, wrong arity = error; depth >= limit = error for blocks and functions (limit from the translated constant). The models are standalone (abstract over the one-line "
+          "resolver) and tied to the code by evaluating the property itself on the implementation on every run: macro program vs hand-inlined program (bits and global symbols, when the inlined program is size-static per the extracted denotation; "
+          "certificate search otherwise), function calls vs substituted expressions, recursion cycles and depth limits, plus implementation(inlined) = extracted model/denotation.",
+  "design_ref": "6/C17", "note": COMMON_NOTE + " Whole-program integration of asm blocks and functions into the resolver model is not done. Known findings F66, F67, F68, F69 (F65 fixed).",
+  "technique": "Coq proof (induction over the block's node list with the stable-round fixed-point shape; conservative-extension theorem for the function evaluator) + metamorphic differential streams G-macro / G-fn + directed known-defect families"}
+NOT_CLAIMED = {}
